@@ -942,7 +942,7 @@ func corpus() []struct {
 		kind string
 		in   input
 	}{
-		// C14-a witness: key only in the class defaults and the class vars
+		// regression case of fix C14-a (former witness): key only in the class defaults and the class vars
 		{"task", input{Path: []lvl{{e, e, e}, {e, e, e}, {e, e, e}}, CD: map[string]tv{"a": {Lit: "x"}}, CV: map[string]tv{"a": {Lit: "y"}}, Keys: []string{"a"}}},
 		// empty value at the nearest level hides a non-empty ancestor value, in every kind
 		{"task", input{Path: []lvl{{smap{"a": ""}, e, e}, {smap{"a": "x"}, e, e}, {smap{"a": "y", "b": "z"}, e, e}}, CD: map[string]tv{"a": {Lit: "y"}}, CV: map[string]tv{}, Keys: []string{"a", "b"}}},
